@@ -65,8 +65,10 @@ Q == A("q", "\"")
 BS == A("bs", "\\")
 W(s) == A("w", s)
 
+\* tokens that carry one of the markup characters  | * ` _ [ ]  (rst() hands such texts to the converter)
+MarkupTokens == {"star", "mpipe", "mstar", "mtick", "munder", "mlbr", "mrbr"}
 TokenNames == {"w3", "w9", "long", "sp", "sps", "tab", "nl", "blank", "li", "star", "plus", "num",
-               "colon", "quote", "tquote", "bslash"}
+               "colon", "quote", "tquote", "bslash"} \cup MarkupTokens
 
 Atoms(t) == CASE t = "w3"     -> <<W("abc")>>
               [] t = "w9"     -> <<W("abcdefghi")>>
@@ -84,6 +86,12 @@ Atoms(t) == CASE t = "w3"     -> <<W("abc")>>
               [] t = "quote"  -> <<Q>>
               [] t = "tquote" -> <<Q, Q, Q>>
               [] t = "bslash" -> <<BS>>
+              [] t = "mpipe"  -> <<W("a|b")>>                                  \* one word per markup character
+              [] t = "mstar"  -> <<W("*gadgets*")>>
+              [] t = "mtick"  -> <<W("`gadgets`")>>
+              [] t = "munder" -> <<W("_gadgets_")>>
+              [] t = "mlbr"   -> <<W("[gadgets")>>
+              [] t = "mrbr"   -> <<W("gadgets]")>>
 
 ASSUME Alphabet \subseteq TokenNames
 
@@ -180,7 +188,7 @@ WrapViolated(in, p, o) ==
 \* rst(text, width, indent, nl): the fast path is wrap; the other path is the (stand-in) converter, which is
 \* not obliged to re-flow.  Both must keep the words (up to the period of the quote guard) and must not end in
 \* a double quote.
-UsesConverter(in) == \E i \in 1..Len(in) : in[i] = "star"      \* the only token with one of  | * ` _ [ ]
+UsesConverter(in) == \E i \in 1..Len(in) : in[i] \in MarkupTokens
 RstViolated(in, p, o) ==
   IF o.raised # "" THEN {"raise"}
   ELSE LET ia == Expand(in)
@@ -255,7 +263,7 @@ WrapClass(in, p, o, v) ==
   ELSE "empty"
 RstClass(in, p, o, v) ==
   IF "raise" \in v THEN RaiseClass(in, o)
-  ELSE IF "tail-quote" \in v THEN "tail-quote"
+  ELSE IF "tail-quote" \in v THEN "tail-quote:" \o (IF UsesConverter(in) THEN "pandoc-route" ELSE "wrap-route")
   ELSE IF "words" \in v THEN
          (IF UsesConverter(in) THEN "converter:words:"
           ELSE IF FirstLineRewrapped(in, [width |-> p.width - p.indent, offset |-> p.indent + 3]) THEN "first-line-rewrap:"
@@ -417,6 +425,14 @@ NextInputs == AddItem \/ ChooseInput
 EmitInput == stage = "params" =>
   PrintT(<<"CASE", ToJson(IF fn = "fixws" THEN [fn |-> fn, items |-> inp]
                           ELSE [fn |-> fn, toks |-> inp, text |-> TextOf(Expand(inp)), conv |-> UsesConverter(inp)])>>)
+\* fixed corner set, run in every tier (INIT InitCorners, NEXT ChooseInput): for each markup character a comment
+\* that takes the converter route of rst() AND ends in a double quote -  abc <markup word> "abc"  - on one line,
+\* on two lines, and with a blank line.  Where a template closes the docstring right after the comment, the quote
+\* guard of rst() is all that keeps the literal from ending in four quotes.
+CornerTexts == UNION {{<<"w3", "sp", m, "sp", "quote", "w3", "quote">>,
+                       <<"w3", "sp", m, "nl", "quote", "w3", "quote">>,
+                       <<"w3", "sp", m, "blank", "quote", "w3", "quote">>} : m \in MarkupTokens \ {"star"}}
+InitCorners == /\ stage = "input" /\ fn \in Fns /\ items \in CornerTexts /\ inp = <<>> /\ par = None /\ out = None /\ verdict = {}
 \* parameter tuples: one case per tuple (INIT InitParams, NEXT ChooseParams)
 InitParams == /\ stage = "params" /\ fn \in Fns /\ items = <<>> /\ inp = <<>> /\ par = None /\ out = None /\ verdict = {}
 EmitParams == stage = "apply" => PrintT(<<"CASE", ToJson([fn |-> fn, par |-> par, conv |-> fn = "rst" /\ par \in ConverterParams])>>)
